@@ -131,6 +131,9 @@ def forced(tier):
             for z in (False, True):
                 cells.append(dict(plain=plain, enc=enc, zip_=z, alg="dir" if len(cells) % 2 else "A256KW", form="compact"))
     for enc in g.ENCS:
+        for form in ("flattened", "general1", "general2"):
+            cells.append(dict(enc=enc, form=form, aad="empty", alg="A256KW" if form != "general1" else "dir"))
+    for enc in g.ENCS:
         for form in ("flattened", "general2"):
             cells.append(dict(enc=enc, form=form, zip_unprotected=True, zip_=False, alg="A128KW", plain="json"))
     if tier == "thorough":
